@@ -57,6 +57,12 @@ class SerializableErr(ValidationErrBase):
     """
 
 
+def _type_name(type_: Any) -> str:
+    # `int | str` and some other typing constructs have no __name__
+    name = getattr(type_, "__name__", None)
+    return name if isinstance(name, str) else repr(type_)
+
+
 def _sorted_choices(choices: Any) -> List[Any]:
     try:
         return sorted(choices)
@@ -161,9 +167,9 @@ def to_serializable_errs(
         elif isinstance(vldtr, (DataclassValidator, NamedTupleValidator)):
             return {"__container__": ["expected a dict"]}
         else:
-            compatible_names = sorted([t.__name__ for t in err.compatible_types])
+            compatible_names = sorted([_type_name(t) for t in err.compatible_types])
             return [
-                f"could not coerce to {err.dest_type.__name__} "
+                f"could not coerce to {_type_name(err.dest_type)} "
                 f"(compatible with {', '.join(compatible_names)})"
             ]
     elif isinstance(err, SerializableErr):
@@ -183,7 +189,7 @@ def to_serializable_errs(
             return {"__container__": ["expected a list"]}
         else:
             type_desc = TYPE_DESCRIPTION_LOOKUP.get(
-                err.expected_type, err.expected_type.__name__
+                err.expected_type, _type_name(err.expected_type)
             )
             if type_desc[0] in {"a", "e", "i", "o", "u"}:
                 type_desc = f"an {type_desc}"
